@@ -61,6 +61,19 @@ type Engine struct {
 	OnLoop    func(e *Engine, fr *frame, l *loopInfo)
 	Unknown   []string // constructs the engine does not model (reported as undecided)
 	wrapAtoms map[string]Atom
+	selfRec   map[*ssa.Function]bool
+	SummarisedRecursive map[string]int // self-recursive functions summarised at call sites (they must be analysed as roots)
+	cellKeys  []string
+	noThresholds    bool
+	extraThresholds []int64
+	mergedCache     []int64
+	mergedFor       *int64
+	ownerCache      map[Atom]ssa.Value
+	ownerCacheLen   int
+	vidRev          map[string]ssa.Value
+	vidRevLen       int
+	resliceCache  map[string]bool
+	RecursionCuts map[string]int // functions whose recursive calls were summarised conservatively
 	rankCache map[Atom]int
 	rankLen   int
 	thrCache  map[*ssa.Function][]int64
@@ -82,7 +95,7 @@ func NewEngine(pkg *ssa.Package, cg *callgraph.Graph) *Engine {
 	e := &Engine{Pkg: pkg, CG: cg, valAtom: map[ssa.Value]Atom{}, lenAtoms: map[ssa.Value]Atom{}, cellAtom: map[string]Atom{},
 		tupAtom: map[string]Atom{}, temps: map[int]Atom{}, vids: map[ssa.Value]int{}, Obls: map[string]*Obl{}, MaxDepth: 6,
 		callees: map[ssa.CallInstruction][]*ssa.Function{}, MaxSteps: 40000000, Externals: map[string]int{}, Universe: map[*ssa.Function]bool{},
-		ordinals: map[*ssa.Function]map[ssa.Instruction]int{}, objType: map[string]string{}, SpareOnReflectSet: map[string]bool{}, isCell: map[Atom]bool{}, snapAtoms: map[string]Atom{}, Summaries: map[*ssa.Function]*FnSummary{}}
+		ordinals: map[*ssa.Function]map[ssa.Instruction]int{}, objType: map[string]string{}, SpareOnReflectSet: map[string]bool{}, isCell: map[Atom]bool{}, snapAtoms: map[string]Atom{}, Summaries: map[*ssa.Function]*FnSummary{}, RecursionCuts: map[string]int{}, SummarisedRecursive: map[string]int{}}
 	if cg != nil {
 		for _, n := range cg.Nodes {
 			for _, ed := range n.Out {
@@ -164,6 +177,18 @@ func (e *Engine) atomRank(a Atom) int {
 		}
 	}
 	return e.rankCache[a]
+}
+
+// sortedCellKeys returns the memory cell keys in a stable order.
+func (e *Engine) sortedCellKeys() []string {
+	if len(e.cellKeys) != len(e.cellAtom) {
+		e.cellKeys = e.cellKeys[:0]
+		for k := range e.cellAtom {
+			e.cellKeys = append(e.cellKeys, k)
+		}
+		sort.Strings(e.cellKeys)
+	}
+	return e.cellKeys
 }
 
 func (e *Engine) nextVer() int64 { e.ver++; return e.ver }
